@@ -14,6 +14,7 @@ COMMON_ASSUMPTIONS = [
 
 PROPS = {
     "C20": {
+        "ready": True,
         "suites": [lambda v, tier, seed: store_suite.run(v, tier, seed)],
         "replay": store_suite.replay,
         "assumptions": ["legal operation = AStore.step is defined (push msg/timer, re-insert a message under an old non-live id, pop a live id, cancel_timer, cancel_proc_events); timers are never re-inserted under a fixed id"],
